@@ -24,6 +24,7 @@ import (
 	"encoding/base64"
 	"encoding/json"
 	"math/big"
+	"sort"
 	"strconv"
 )
 
@@ -116,7 +117,17 @@ func ChangeAssets(source string, targets map[string]types.TransferData, accountd
 	responseCoin := types.NewJSONObject()
 	responseFT := types.NewJSONObject()
 
-	for address, transferData := range targets {
+	// Go randomises map iteration and the outcome depends on the order in which the targets are
+	// visited (a target may be the source itself, under any spelling of its address), so every node
+	// must visit them in the same order: by key.
+	addresses := make([]string, 0, len(targets))
+	for address := range targets {
+		addresses = append(addresses, address)
+	}
+	sort.Strings(addresses)
+
+	for _, address := range addresses {
+		transferData := targets[address]
 		targetAddr := common.HexToAddress(address)
 
 		// 转钱
